@@ -93,7 +93,7 @@ def main():
         old = os.path.join(dst, "meta.json")
         if os.path.exists(old):
             prev = json.load(open(old))
-            for k in ("history", "note"):
+            for k in ("history", "note", "also_checks"):
                 if k in prev:
                     meta_out[k] = prev[k]
         json.dump(meta_out, open(old, "w"), indent=1)
